@@ -145,6 +145,9 @@ MUTANTS += [
          desc='PathsOf starts its dedup memory at 0 and compares the first path with it too (undoes part of the repair 6d17ed3): a first key whose path is the root word 0 is dropped',
          edits=[('bmtree/newpath.go', 'prev := ^uint64(0)', 'prev := uint64(0)'),
                 ('bmtree/newpath.go', '!dedup || i == 0 || p != prev', '!dedup || i < 0 || p != prev')]),
+    dict(name='c20-revert-nan-key-fix', props=['C20'],
+         desc='undoes the tenth repair (bd5258a): the values of map entries whose key is NaN are not counted again',
+         edits=[('size/sizeof.go', 'if !v.MapIndex(it.Key()).IsValid() {', 'if false && !v.MapIndex(it.Key()).IsValid() {')]),
     dict(name='c11-equiv-tobyte', props=['C11'], expect='silent',
          desc='EQUIVALENT edit: toByte rounded with +8 (the extra byte is shifted out; must stay silent)',
          edits=[('bitmap/fromstr32.go', 'toByte := tobit>>3 + (tobit&7+7)>>3', 'toByte := tobit>>3 + (tobit&7+8)>>3')]),
